@@ -77,6 +77,11 @@ def Checker.timeLeeway (ck : Checker) (c : ClaimId) (secs : Int) : Checker × Na
 def Checker.setcb (ck : Checker) (cb : Option CheckerCb) : Checker × Nat :=
   ({ ck with cfg := { ck.cfg with cb := cb } }, 0)
 
+/-- `jwt_checker_setcb(checker, NULL, ctx)` with `ctx ≠ NULL`: with a callback installed only its context changes (the
+callback stays); without one the call is refused with a message -/
+def Checker.setcbCtx (ck : Checker) : Checker × Nat :=
+  if ck.cfg.cb.isSome then (ck, 0) else (ck.writeError .cbCtxNoCb, 1)
+
 /-- `jwt_checker_error_clear` -/
 def Checker.errorClear (ck : Checker) : Checker := { ck with error := false, msg := none }
 
